@@ -675,6 +675,10 @@ def check(ctx):
     with ctx.shared({"C04.R5": ("C14.R11", "however the transport splits the writes, tr_send_all hands the remaining bytes (buffer + done, len - done) "
                                 "to the transport until all are out and stops at the first negative result")}):
         C04.r5(ctx, retsets)
+    from specs import C08
+    with ctx.shared({"C08.R4": ("C14.R12", "a failed send ends the connection (state change on every failure return of the query senders), so no further PDU "
+                                "is written behind a fragment")}):
+        C08.r4_silent(ctx, retsets)
     ctx.not_decided("partial-write behaviour of user-supplied transports (tr_send_all loops until len bytes are out: C04.R5)")
 
 
